@@ -199,6 +199,9 @@ def special_recipes(files, d):
         {"cls": "File", "path": files[2], "download_name": "文件.bin", "chunk_size": 4},
         {"cls": "File", "path": files[2], "download_name": 'we"ird\\name.txt', "chunk_size": 4},
         {"cls": "File", "path": uni, "content_type": "application/octet-stream", "chunk_size": 3},
+        {"cls": "File", "path": files[2], "download_name": "esc\x1bape.txt", "chunk_size": 4},
+        {"cls": "File", "path": files[2], "download_name": "tab\tdel\x7f.txt", "chunk_size": 4},
+        {"cls": "File", "path": [f for f in files if "ctl" in f][0], "chunk_size": 4},
         {"cls": "File", "path": uni, "chunk_size": 3},
         {"cls": "File", "path": files[0], "chunk_size": 8},
         {"cls": "Response", "status": 599},
